@@ -179,9 +179,10 @@ def plan(prop, tier, seed):
     elif prop == "C03":
         data(n(50, 500), p_rel=0.5); data(n(5, 60), big_groups=True)
     elif prop == "C04":
-        data(n(30, 300))
-        for _ in range(n(30, 400)):
+        data(n(25, 300))
+        for _ in range(n(25, 400)):
             G.append(twin_replay(S()))
+        fam(n(25, 400), scen.hs_replay_session, "hs-replay")
     elif prop == "C05":
         for _ in range(n(80, 1500)):
             s = S()
@@ -208,19 +209,20 @@ def plan(prop, tier, seed):
     elif prop == "C10":
         data(n(80, 1200), with_close=True, updates=True)
     elif prop == "C11":
-        data(n(50, 500)); fam(n(10, 100), scen.large_session, "large")
+        data(n(30, 400)); data(n(15, 150), with_close=True, updates=True); fam(n(10, 100), scen.large_session, "large"); fam(n(12, 200), scen.unit_session, "unit")
     elif prop == "C12":
-        data(n(40, 400)); fam(n(15, 150), scen.large_session, "large"); fam(n(10, 100), scen.window_session, "window")
+        data(n(25, 300)); data(n(15, 150), with_close=True, updates=True); fam(n(10, 150), scen.large_session, "large"); fam(n(10, 100), scen.window_session, "window")
+        fam(n(12, 200), scen.unit_session, "unit")
     elif prop == "C13":
         data(n(40, 400)); fam(n(20, 200), scen.window_session, "window")
     elif prop == "C14":
         data(n(80, 1000), with_invalid=True)
     elif prop == "C15":
-        fam(n(150, 3000), scen.clock_session, "clock")
+        fam(n(200, 3000), scen.clock_session, "clock")
         for _ in range(n(20, 200)):
             G.append([("hs", scen.handshake_session(S()))])
     elif prop == "C16":
-        data(n(60, 800), with_close=True, updates=True)
+        data(n(50, 800), with_close=True, updates=True); fam(n(30, 400), scen.window_session, "window")
         for _ in range(n(20, 300)):
             G.append([("hs", scen.handshake_session(S(), hostile=False))])
         fam(n(15, 200), scen.hostile_session, "hostile")
@@ -493,6 +495,12 @@ def main():
                         break
             steps, tn = monitors.parse_trace(lines, r.impl["ndebug"][1])
             V, st, info = monitors.analyse(steps, tn)
+            if name.startswith("hs-replay"):
+                for st_ in steps:
+                    if "replay" in st_.notes:
+                        bad = [e for e in st_.events if not e.startswith("ret")]
+                        if bad:
+                            V.append(monitors.Violation("C04", "replay", "a handshake / data datagram presented again caused %s" % bad[:3], st_))
             if prop == "C19" or name.startswith("large"):
                 V += monitors.check_large(steps, info)
             for v in V:
